@@ -560,6 +560,12 @@ Theorem auto_formq_spec_thm : forall (K : CField),
 Proof. exact formq_spec. Qed.
 Print Assumptions auto_formq_spec_thm.
 
+(* NOTE on inhabitants: run_laws needs nrm s * nrm s = s at the squared column norms met by the run.
+   Over Q[i] this holds only when those norms are rational squares; for the a_matrix of the model's own
+   problems (ex_pr: column 0 has squared norm 19; run_pr: 273/4) it does NOT, so at Q[i] the theorem below
+   is inhabited only by matrices such as the 3 x 2 one of the instance, which is not the a_matrix of any
+   [problem].  The statement that covers the a_matrix of every problem is auto_q2_projector_thm over a field
+   that has the square roots (e.g. the complex numbers), which this development does not instantiate. *)
 (* Connected to the executable model: over Q[i], for ANY functions standing for sqrt and the
    unit-modulus factor whose run on a meets the law instances, the entries the model forms from
    [project] (W^H (y - A z): J^H J, J^H k, k^H k of kernel_pass are of this form with W, y among
@@ -585,41 +591,49 @@ Theorem auto_project_is_code_q2_instance_thm :
 Proof. exact project_is_q2_projector_instance. Qed.
 Print Assumptions auto_project_is_code_q2_instance_thm.
 
-(* Descent: for every J (r x p_length) with Gram matrix jtj, every lambda >= 0 with J1 = jtj + lambda I
-   nonsingular: the step d is returned, d^H (J^H k) is a real number q >= 0 (= |J d|^2 + lambda |d|^2),
-   and q = 0 exactly when J^H k = 0: to first order |k|^2 does not increase along p - d and
-   decreases unless the point is stationary. *)
-Theorem auto_step_descent_thm : forall pl r (J jtj jtk : qmat) (lam : Qc),
+(* The Gram identity of the Levenberg-Marquardt step (EXACT ARITHMETIC ONLY; J, jtj, jtk free-standing:
+   nothing here links them to kernel_pass or to the sum_k_squared the C code compares).  For every J
+   (r x p_length) whose Gram matrix is jtj, every jtk, every lambda >= 0 with J1 = jtj + lambda I
+   nonsingular: the step d is returned, d^H jtk is the real number q = |J d|^2 + lambda |d|^2 >= 0, and
+   q = 0 exactly when jtk = 0.  (With jtk = J^H k this says that to first order |k|^2 does not increase
+   along p - d.) *)
+Theorem lm_step_gram_identity : forall pl r (J jtj jtk : qmat) (lam : Qc),
   wf pl 1 jtk ->
   (forall a c, a < pl -> c < pl ->
      mget QIF jtj a c = sumf r (fun k => cmul (cj (mget QIF J k a)) (mget QIF J k c))) ->
   (0 <= lam)%Qc ->
   q_kernel_trivial (j1_matrix pl jtj lam) pl ->
-  exists d q, kernel_step pl jtj jtk lam = Some d /\
-    sumf pl (fun i => cmul (cj (nth i d qi0 : QIF)) (mget QIF jtk i 0)) = qi_of_Qc q /\
+  exists d, kernel_step pl jtj jtk lam = Some d /\
+    let dv := fun i => nth i d qi0 : QIF in
+    let q := (LsProofs.qsum r (fun k => qi_nrm (Jd pl J dv k)) + lam * LsProofs.qsum pl (fun i => qi_nrm (dv i)))%Qc in
+    sumf pl (fun i => cmul (cj (dv i)) (mget QIF jtk i 0)) = qi_of_Qc q /\
     (0 <= q)%Qc /\
     (q = 0%Qc <-> forall i, i < pl -> mget QIF jtk i 0 = qi0).
 Proof. exact kernel_step_descent. Qed.
-Print Assumptions auto_step_descent_thm.
+Print Assumptions lm_step_gram_identity.
 
-Theorem auto_step_descent_satisfiable_thm :
+(* hypotheses met by a concrete instance, and the theorem applied to it *)
+Theorem lm_step_gram_identity_instance :
   let J : qmat := [[mkqi 1 8 0 1]; [mkqi 1 8 0 1]; [mkqi 1 8 0 1]] in
   let jtj : qmat := [[mkqi 3 64 0 1]] in
   let jtk : qmat := [[mkqi 1 4 0 1]] in
-  wf 1 1 jtk /\
-  (forall a c, a < 1 -> c < 1 ->
-     mget QIF jtj a c = sumf 3 (fun k => cmul (cj (mget QIF J k a)) (mget QIF J k c))) /\
-  (0 <= Q2Qc (1 # 10))%Qc /\
-  q_kernel_trivial (j1_matrix 1 jtj (Q2Qc (1 # 10))) 1.
-Proof. exact kernel_step_descent_instance. Qed.
-Print Assumptions auto_step_descent_satisfiable_thm.
+  let lam := Q2Qc (1 # 10) in
+  exists d, kernel_step 1 jtj jtk lam = Some d /\
+    let dv := fun i => nth i d qi0 : QIF in
+    let q := (LsProofs.qsum 3 (fun k => qi_nrm (Jd 1 J dv k)) + lam * LsProofs.qsum 1 (fun i => qi_nrm (dv i)))%Qc in
+    sumf 1 (fun i => cmul (cj (dv i)) (mget QIF jtk i 0)) = qi_of_Qc q /\
+    (0 <= q)%Qc /\
+    (q = 0%Qc <-> forall i, i < 1 -> mget QIF jtk i 0 = qi0).
+Proof. exact kernel_step_descent_applied. Qed.
+Print Assumptions lm_step_gram_identity_instance.
 
-(* The model iteration converges from wrong guesses (exact multi-pass runs, by computation): on the
+(* Two exact multi-pass runs of the model iteration from wrong guesses (vm_compute examples, exact
+   arithmetic only; no general convergence claim): on the
    one-port problem of AutoKernelRun.v (exact dyadic data for x* = (2, 1, 1), p* = 3, full rank),
    p_tolerance = et_tolerance = 1/8, limit 30: from the guess 2 kernel_run returns Converged after
    exactly 3 passes, each the best so far, with p and every error term within 1/100 of the truth;
    from 5/2 after 2 passes. *)
-Theorem auto_kernel_run_converges_thm :
+Theorem auto_kernel_run_two_runs_example :
   exact_data run_pr run_ps run_xs /\ full_col_rank 6 3 (a_matrix run_pr run_ps) /\
   run_ok (zi 2 0) 3 = true /\ run_ok (qh 5 2) 2 = true /\
   close (zi 2 0) (zi 3 0) (Q2Qc (1 # 100)) = false /\ close (qh 5 2) (zi 3 0) (Q2Qc (1 # 100)) = false.
@@ -627,4 +641,34 @@ Proof.
   exact (conj run_exact (conj run_full_rank (conj kernel_run_converges_from_2
           (conj kernel_run_converges_from_5_2 run_guesses_are_wrong)))).
 Qed.
-Print Assumptions auto_kernel_run_converges_thm.
+Print Assumptions auto_kernel_run_two_runs_example.
+
+(* ======================================================================================== *)
+(* Review R3: monotonicity of the control skeleton in the tolerances                        *)
+(* ======================================================================================== *)
+Require Import LV.SelfCal.AutoLoopMono.
+
+(* For every kernel, every limit and start: if the iteration converges with tolerances (ptol, ettol),
+   0 <= ptol <= ptol', 0 <= ettol <= ettol', it converges with (ptol', ettol') in at most as many passes.
+   (The converse -- tightening keeps success -- is not claimed: it fails on the real code in binary64 on
+   slightly inconsistent data, known finding DE90; checks/c02_perturbed.py tests both directions.) *)
+Theorem auto_run_tolerance_monotone_thm :
+  forall (P X KD D : Type) (solve_x : nat -> P -> option (X * KD)) (sumk : KD -> Qc)
+         (step : nat -> KD -> Qc -> option D) (apply_step : P -> D -> P) (normd : D -> Qc)
+         (normdx : X -> X -> Qc) (plen xlen : Qc) (limit : nat) (ptol ettol ptol' ettol' : Qc),
+  (0 <= ptol)%Qc -> (ptol <= ptol')%Qc -> (0 <= ettol)%Qc -> (ettol <= ettol')%Qc ->
+  forall (p0 : P) x p,
+  fst (auto_run P X KD D solve_x sumk step apply_step normd normdx ptol ettol plen xlen limit p0) = Converged x p ->
+  exists x' p',
+    fst (auto_run P X KD D solve_x sumk step apply_step normd normdx ptol' ettol' plen xlen limit p0) = Converged x' p' /\
+    length (snd (auto_run P X KD D solve_x sumk step apply_step normd normdx ptol' ettol' plen xlen limit p0)) <=
+    length (snd (auto_run P X KD D solve_x sumk step apply_step normd normdx ptol ettol plen xlen limit p0)).
+Proof. exact auto_run_tolerance_monotone. Qed.
+Print Assumptions auto_run_tolerance_monotone_thm.
+
+(* satisfiable: the toy kernel converges at tolerance 1/1000 (auto_examples), hence at 1/10 *)
+Example auto_run_tolerance_monotone_example :
+  outcome_tag (fst (toy_run (AutoReplay.q 1 1000) 30 (Q2Qc 4))) = 0 /\
+  outcome_tag (fst (toy_run (AutoReplay.q 1 10) 30 (Q2Qc 4))) = 0 /\
+  Nat.leb (length (snd (toy_run (AutoReplay.q 1 10) 30 (Q2Qc 4)))) (length (snd (toy_run (AutoReplay.q 1 1000) 30 (Q2Qc 4)))) = true.
+Proof. repeat split; vm_compute; reflexivity. Qed.
